@@ -17,7 +17,8 @@ from harness.common import NCPU, MachineryError, pmap
 
 def check(run, replay=None):
     G.NAME_COLS[0] = [0, 2, 3]                 # identifiers that are not primary-key candidates by name
-    G.ALLOW_KEYS[0] = {"server_default"}       # the synthetic id's server default (judged by C14, not by C05)
+    G.ALLOW_KEYS[0] = {"server_default"}
+    G.OPENERS[0] = G.SQL_OPENERS
     run.rule = ("case = (variant, docstring style, force_pk_id) x interface of 1..2 SQL-representable columns (11 type shapes x "
                 "defaults x plain/[PK]/[FK] descriptions, at most one [PK]); distinct = distinct (cfg, interface)")
     run.assumptions += ["column names are drawn from identifiers that are not primary-key candidates by name (`*_id`, `*_name`, `id`)",
@@ -117,7 +118,9 @@ def _hybrid_one(args):
 
 def _hybrid_batch(items):
     G.NAME_COLS[0] = [0, 2, 3]
+    G.OPENERS[0] = G.SQL_OPENERS
     G.ALLOW_KEYS[0] = {"server_default"}
+    G.OPENERS[0] = G.SQL_OPENERS
     return [_hybrid_one(a) for a in items]
 
 
@@ -160,6 +163,7 @@ def _agree_batch(items):
 
 def _agree(run, cases):
     G.NAME_COLS[0] = [0, 2, 3]
+    G.OPENERS[0] = G.SQL_OPENERS
     items = [(c, run.seed) for c in cases]
     outs = []
     for rb in pmap(_agree_batch, [items[k:k + 64] for k in range(0, len(items), 64)], chunksize=1):
